@@ -494,10 +494,11 @@ impl StructNames {
     /// store the given name for the element at the given path, or the name followed by a number if it is
     /// already in use, not a valid identifier or would shadow a type that is used by the generated fields
     fn reserve(&mut self, path: &[String], name: String) {
-        let base = if name.is_empty() {
-            "_".to_string()
-        } else {
-            name
+        let base = match name.chars().next() {
+            None => "_".to_string(),
+            // an element name like `_1` has a PascalCase form that starts with a digit
+            Some(first) if !(first.is_alphabetic() || first == '_') => format!("_{}", name),
+            Some(_) => name,
         };
         let mut unused_name = base.clone();
         let mut i = 0;
